@@ -69,6 +69,19 @@ def run(chk):
         for v in ("2.5", "-2.5", "0.4", "-0.4", "\"s\"", "null", "1e300"):
             cases.append({"src": f"put {v} into X\nturn {d} X\nsay X\nturn it {d}\nsay X\n", "meta": "turn"})
             cases.append({"src": f"rock Apex with {v}, 7.25\nrock Idx with 0, 1\nturn Apex at roll Idx {d}\nsay Apex at 0\nsay Apex at 1\nsay Idx\n", "meta": "turn subscript with effect"})
+    # the order in which operand, destination and parameter are evaluated is observable: through the pronoun (each
+    # named variable moves it), through callees that print or change variables, through which error comes first
+    loud = "Loud takes V\nsay V\ngive back V\n\nSwap takes V\nput \"changed\" into Glob\ngive back V\n\nput \"g-l-o\" into Glob\n"
+    for op, opd, par in (("cut", '"a-b-c"', '"-"'), ("split", '"a b c"', '" "'), ("join", None, '"+"'), ("unite", None, '""'), ("cast", '"ff"', "16"), ("burn", '"101"', "2")):
+        init2 = ["rock Arr with \"x\", \"y\"" if opd is None else f"let Src be {opd}", f"let Par be {par}"]
+        src_name = "Arr" if opd is None else "Src"
+        for stmt in (f"{op} it into R with Par", f"{op} {src_name} into R with it", f"{op} it with Par", f"{op} {src_name} with it",
+                     f"{op} Loud taking {src_name} into R with Loud taking Par", f"{op} {src_name} into R with Swap taking Par",
+                     f"{op} Glob into R with Swap taking Par", f"{op} Swap taking Glob into Glob with Par", f"{op} Missing into R with Nope",
+                     f"{op} {src_name} into Arr at Loud taking 1 with Loud taking Par", f"{op} Missing with Loud taking Par",
+                     f"{op} {src_name} into R with Loud taking Nope", f"{op} Loud taking Nope into R with Loud taking Par"):
+            for last in (f"say {src_name}", "say Par"):
+                cases.append({"src": loud + "\n".join(init2 + [last, stmt, "say R", f"say {src_name}", "say Glob", "say it"]) + "\n", "meta": "mutation evaluation order"})
     cases += [{"src": c["src"], "meta": c.get("note")} for c in corpus_cases("exec")]
     recs = execsuite.run(chk, cases, "stmt", suite_name="EXEC-mutations")
     record_exec(chk, recs, sig=lambda r: (r["case"].get("meta"), r["impl"].get("debug", "")[:80]))
